@@ -6,6 +6,9 @@ BASE = json.load(open('/root/.vp/BASELINE.json'))
 
 # property -> (technique, what is decided, what is not decided)
 CLAIMED = {
+ "C01": ("path search with boolean correlation on go/cfg from every effective mutation site of the write handlers; must-pass-through of the empty-collection cleanup",
+         "two clauses only: (a) 'an error or negative answer changes nothing' — in every write handler no feasible path leads from an effective mutation of the keyspace, a collection or the hook registry to a return carrying a non-nil error or the NX/XX negative reply; (b) 'a collection exists iff it holds an object' — every deletion of an object from a keyspace collection is followed on all normal paths by the Count() == 0 → cols.Delete cleanup, and a collection registered while empty receives an object on every path that follows",
+         "equivalence of replies and visible state with the map model over all programs, and exact read-back of objects and field values (value-level; no static argument in reach)"),
  "C03": ("call-graph effect analysis vs extracted command tables; must-pass-through on go/cfg",
          "logging discipline: every handler that can mutate persistent state is in the logged/exclusive/gated write class (computed effects vs the lock table), every apply site passes writeAOF on all non-error paths inside the same critical section, mutations are followed by commandDetails.updated, every name that can reach the log is re-executable at start-up",
          "crash instants and the determinism of replaying a logged command (value-level)"),
